@@ -22,7 +22,7 @@ func init() {
 	})
 	p.Run = func(c *Ctx) {
 		runScale(c, sub, "C07")
-		cfg := gen.Cfg{ExprDepth: 2, BodyLen: 4, Nest: 4, Calls: true, Probe: true, If: true, For: true, Set: true, SetCap: true, Macros: true, Collide: true, LoopMeta: true}
+		cfg := gen.Cfg{ExprDepth: 2, BodyLen: 4, Nest: 4, Calls: true, Probe: true, If: true, For: true, Set: true, SetCap: true, Macros: true, Collide: true, LoopMeta: true, RecMacro: true}
 		sub.Rapid(c, c.Share(c.Pick(25000, 1000000)), progGen(cfg))
 		// the same programs as the child of a layout: the leading assignments
 		// stay at the template's top level, the rest moves into a block ("a set
